@@ -45,6 +45,7 @@ type vsState struct {
 	histConst bool            // no block has begun with HistoricalEntries=0 so far (records are contiguous)
 	execs     []string        // model: authorised bridge executors (account names)
 	plan      *vsPlan
+	plan2     *vsPlan          // a second plan, registered while the first was still pending, for a later height
 	mirrorAt  map[int64]string // canonical mirror set as of BeginBlock(h) for recent heights
 }
 
@@ -141,6 +142,12 @@ func (y *vsSys) Letters(s *vsState) []engine.Letter {
 		ls = append(ls, engine.Letter{Name: fmt.Sprintf("UpdateParams(HistoricalEntries=%d)", h), Data: vsParam{0, h}})
 	}
 	ls = append(ls, engine.Letter{Name: "NextBlock", Data: vsNextBlock{}})
+	if y.withPlan && s.plan != nil && !s.plan.executed && s.plan2 == nil {
+		// a second plan while the first is pending, two blocks ahead (unless that height is taken)
+		if h2 := uint64(s.ctx.BlockHeight()) + 2; h2 != s.plan.height {
+			ls = append(ls, engine.Letter{Name: "RegisterSecondPlan(h+2,o2,k2,execs=[e1])", Data: vsRegister{2, "o2", "k2", []string{"e1"}}})
+		}
+	}
 	if y.withPlan && s.plan == nil {
 		for _, dh := range []uint64{0, 1} {
 			for _, o := range vsOps {
@@ -171,7 +178,7 @@ func opName(valAddr string) string {
 }
 
 func (s *vsState) child(ctx sdk.Context) *vsState {
-	return &vsState{ctx: ctx, w: s.w, mirror: s.mirror, plans: s.plans, removed: s.removed, histConst: s.histConst, execs: s.execs, plan: s.plan, mirrorAt: s.mirrorAt}
+	return &vsState{ctx: ctx, w: s.w, mirror: s.mirror, plans: s.plans, removed: s.removed, histConst: s.histConst, execs: s.execs, plan: s.plan, plan2: s.plan2, mirrorAt: s.mirrorAt}
 }
 
 // vsUnusableKey names a 1-of-1 multisig public key: a registered, decodable cryptotypes.PubKey that
@@ -319,6 +326,10 @@ func (y *vsSys) Step(s *vsState, l engine.Letter) (*vsState, string, *engine.Vio
 			return c, "rejected", viol("well-formed-plan-is-registered", "registration of a well-formed plan failed: %v", err)
 		}
 		c.plans = world.ClonePlans(s.w.K.ExecutorChangePlans)
+		if s.plan != nil {
+			c.plan2 = pl
+			return c, "registered-second", nil
+		}
 		c.plan = pl
 		return c, "registered", nil
 	case vsNextBlock:
@@ -330,11 +341,18 @@ func (y *vsSys) Step(s *vsState, l engine.Letter) (*vsState, string, *engine.Vio
 func (y *vsSys) nextBlock(s, c *vsState) (*vsState, string, *engine.Violation) {
 	ctx := c.ctx
 	h := ctx.BlockHeight()
-	planNow := s.plan != nil && !s.plan.executed && s.plan.height == uint64(h)
+	// the plan due at this height, if any (at most two plans exist, at different heights)
+	var due *vsPlan
+	for _, p := range []*vsPlan{s.plan, s.plan2} {
+		if p != nil && !p.executed && p.height == uint64(h) {
+			due = p
+		}
+	}
+	planNow := due != nil
 	tags := []string{}
 	var pl vsPlan
-	if s.plan != nil {
-		pl = *s.plan
+	if due != nil {
+		pl = *due
 	}
 	if planNow {
 		// structural facts about the witness (what the plan collides with), read from state before EndBlock
@@ -429,7 +447,7 @@ func (y *vsSys) nextBlock(s, c *vsState) (*vsState, string, *engine.Violation) {
 		return c, "error", viol("state-readable", "Validators query: %v", err)
 	}
 	for _, val := range qv.Validators {
-		if s.removed[opName(val.OperatorAddress)] && !(planNow && opName(val.OperatorAddress) == s.plan.op) {
+		if s.removed[opName(val.OperatorAddress)] && !(planNow && opName(val.OperatorAddress) == pl.op) {
 			bonded := "never bonded"
 			if pk, err := val.ConsPubKey(); err == nil {
 				if t, err := cryptocodec.ToCmtPubKeyInterface(pk); err == nil {
@@ -448,11 +466,23 @@ func (y *vsSys) nextBlock(s, c *vsState) (*vsState, string, *engine.Violation) {
 	if planNow {
 		np := pl
 		np.executed = true
-		c.plan = &np
-		c.execs = s.plan.execs
-		want := map[string]int64{hex.EncodeToString(world.EdKey(s.plan.key).PubKey().Bytes()): 1}
+		if due == s.plan2 {
+			c.plan2 = &np
+		} else {
+			c.plan = &np
+		}
+		c.execs = pl.execs
+		want := map[string]int64{hex.EncodeToString(world.EdKey(pl.key).PubKey().Bytes()): 1}
 		if canonSet(mirrorMap(nm)) != canonSet(want) {
-			return c, "plan", T(viol("plan-validator-is-the-only-validator", "after EndBlock(%d) the engine holds {%s}, expected exactly {%s:1}", h, namedSet(mirrorMap(nm)), s.plan.key))
+			return c, "plan", T(viol("plan-validator-is-the-only-validator", "after EndBlock(%d) the engine holds {%s}, expected exactly {%s:1}", h, namedSet(mirrorMap(nm)), pl.key))
+		}
+		// whatever else is registered for later heights stays registered
+		for _, p := range []*vsPlan{s.plan, s.plan2} {
+			if p != nil && p != due && !p.executed {
+				if _, ok := s.w.K.ExecutorChangePlans[p.height]; !ok {
+					return c, "plan", T(viol("plan-takes-effect-at-its-height", "executing the plan of height %d dropped the plan registered for height %d", h, p.height))
+				}
+			}
 		}
 		outcome = "plan-executed"
 	}
